@@ -12,8 +12,13 @@ func p4Opts(c *ctx, k int) sysh.Opts {
 	r := c.rng
 	o := sysh.Opts{P4: true, Pool: "10.60.0.0/16", P4Slice: []int{0, 1, 15, 7}[k%4], P4DefaultTC: []int{3, 0, 1, 2}[k%4]}
 	if k%3 != 0 {
-		o.P4QfiTC = map[string]int{}
-		for _, q := range []int{9, 5, 1, 0, 63, 8, 7} {
+		// QFI 5 is mapped to class 0 (BEST_EFFORT), QFI 9 to a class other than the default
+		o.P4QfiTC = map[string]int{"5": 0, "9": (o.P4DefaultTC + 1) % 4}
+		if o.P4DefaultTC == 0 {
+			o.P4QfiTC["5"] = 2
+			o.P4QfiTC["1"] = 0
+		}
+		for _, q := range []int{0, 63, 8, 7} {
 			if r.Intn(2) == 0 {
 				o.P4QfiTC[fmt.Sprint(q)] = r.Intn(4)
 			}
@@ -41,6 +46,31 @@ func c04(c *ctx) {
 		nA := 1 + r.Intn(2)
 		for a := 0; a < nA; a++ {
 			w.assoc(a)
+		}
+		if k%3 == 1 {
+			// only sessions whose downlink buffers and that carry application filters: sessions, terminations and applications
+			// tables are populated, tunnel_peers is empty — and the agent is killed and restarted against the same switch
+			for i := 0; i < 2; i++ {
+				pdrs, fars, _ := w.p4session()
+				f := sdfPool[1+i]
+				pdrs = pdrs[:2]
+				pdrs[0].Sdf, pdrs[1].Sdf = strp(f), strp(f)
+				pdrs[0].Prec, pdrs[1].Prec = 100, 200
+				pdrs[0].Qers, pdrs[1].Qers = nil, nil
+				pdrs[0].Far, pdrs[1].Far = 1, 2
+				fars = []sysh.FarIE{fars[0], {ID: 2, Act: 0x0C}}
+				w.nextCP++
+				w.est(0, w.nodes[0], w.nextCP, pdrs, fars, nil, "buffering-with-filter")
+			}
+			w.s.Kill()
+			w.emit("kill", true, map[string]interface{}{"k": "kill"})
+			if !w.start() {
+				w.close()
+				return
+			}
+			for a := 0; a < nA; a++ {
+				w.assoc(a)
+			}
 		}
 		w.p4history(steps)
 		if k%2 == 0 {
